@@ -103,7 +103,11 @@ def check_problem(case, do_cli=False, do_tensor_method=False, collect_code=None)
     d = f"{case['assignment']} {case['formats']} {case['kinds']} {case['language']}"
     info = {"status": None, "reserved": uses_reserved(case)}
     extra = {"reserved": info["reserved"]}
-    pa = parse_assignment(case["assignment"])
+    try:
+        pa = parse_assignment(case["assignment"])
+    except Exception as e:  # noqa: BLE001 - a syntactically valid assignment must parse (C12 looks at the parser itself)
+        info["status"] = "exception"
+        return [fail(f"internal-error:{type(e).__name__}@{bridge.innermost_frame(e)}", f"{d}: parse_assignment raised: {str(e)[:200]}", **extra)], info
     if isinstance(pa, Failure):
         info["status"] = "parse-failure"
         return [fail("valid-assignment-rejected-by-parser", f"{d}: {pa.failure()}", **extra)], info
